@@ -30,6 +30,11 @@ def gen(rnd, idx, excl_witness=False):
     D["user_sim"] = rnd.random() < 0.4  # additionally two user methods declared simultaneous(), called by two more transactions
     # the callers hand the exchanged data on to methods with validate_arguments: their readiness depends on the data delivered through the Connect
     D["vsink"] = rnd.random() < 0.4
+    if D["vsink"]:
+        # one caller at each end: with several callers the data a downstream validator sees would be selected by the arbitration result itself
+        # (readiness depending on the grant is outside the documented rules and a structural combinational loop)
+        D["nw"] = D["nr"] = 1
+        D["wx"], D["rx"] = D["wx"][:1], D["rx"][:1]
     if not D["share"]:
         used = set()
         for lst in D["wx"] + D["rx"]:
@@ -176,9 +181,7 @@ def run_one(rec, rnd, idx, cycles, excl_witness=False):
                     rec.check("C13:connect_read_and_write_run_in_exactly_the_same_cycles", w2 == r2, klass=klass, case=case, detail=dict(det, second_connect=[w2, r2]))
                     rec.check("C13:chained_connects_transfer_together", w2 == cw, klass=klass, case=case, detail=dict(det, second_connect=[w2, r2]))
                 rec.check("C13:one_writer_per_transfer_and_one_reader", sum(wrun) == sum(rrun) and sum(wrun) <= 1, klass=klass, case=case, detail=det)
-                if not excl_witness and not (D.get("vsink") and (D["nw"] > 1 or D["nr"] > 1)):
-                    # (with several callers at one end the argument a validator downstream sees is selected by the arbitration result itself, so
-                    # "ready on the delivered data" is not defined before the grant: the progress clause is judged only for single-caller ends then)
+                if not excl_witness:
                     # all writer/reader pairs conflict with each other (they share the Connect), every other method is nonexclusive: a transfer
                     # happens iff some pair is ready, where readiness of the validated sinks is judged on the data the Connect delivers
                     vs = D.get("vsink", False)
@@ -269,8 +272,8 @@ RULE = ("generated topologies: 1-2 writer and 1-3 reader transactions around a C
         "callers' readiness depends on the data delivered through the Connect; oracle per cycle: read.run == write.run for every Connect and declared pair, chained "
         "Connects transfer together, the reader (and its validated sink) observes the writer's argument and the writer the reader's argument in the same cycle, and a "
         "transfer happens iff some writer/reader pair is ready judged on the delivered data; distinct non-trivial case = (writer, reader, reverse, chain, share)")
-ASSUMPTIONS = ["with validated sinks the progress clause (transfer iff some pair ready) is judged only when each end of the Connect has one caller: with several callers "
-               "the data a downstream validator sees is selected by the arbitration result, which is outside the documented readiness rules",
+ASSUMPTIONS = ["validated sinks are generated only when each end of the Connect has one caller: with several callers the data a downstream validator sees is selected "
+               "by the arbitration result, which is outside the documented readiness rules (a structural combinational loop)",
                "ends that share an *exclusive* method through a chain are not generated (residual part of finding F11)"]
 MINIMA = {"quick": {"cycles": 20000, "transfers": 4000, "reverse_transfers": 1000, "one_sided_ready_cycles": 2000, "user_simultaneous_runs": 500,
                     "designs_where_both_sides_share_a_nonexclusive_method": 5, "transfers_into_validated_sinks": 300,
